@@ -214,9 +214,26 @@ def multi_insert_triple(r, minor=None):
     return ('multiinsert@4.%d' % minor, b, l, rm)
 
 
+CORPUS_ARGS = {}     # name -> strategy configuration a corpus case must be run with
+
+
+def corpus_triples(prop='C04'):
+    """minimised failures kept in /verif/corpus/<prop>/*.json: {name, base, local, remote, args}; run first"""
+    d = os.path.join(os.path.dirname(os.path.dirname(os.path.abspath(__file__))), 'corpus', prop)
+    out = []
+    if os.path.isdir(d):
+        for f in sorted(os.listdir(d)):
+            if not f.endswith('.json'): continue
+            c = json.load(open(os.path.join(d, f)))
+            name = 'corpus:' + c.get('name', f[:-5])
+            CORPUS_ARGS[name] = c.get('args') or {'merge_strategy': 'inline'}
+            out.append((name, c['base'], c['local'], c['remote']))
+    return out
+
+
 def gen_triples(r, n, repo, minors_mix=0.15):
     """-> [(name, base, local, remote)]: hand-made (every minor), fixtures, generated"""
-    out = []
+    out = corpus_triples('C04')
     for k in range(6): out += [('hand:%s@4.%d' % (nm, k), b, l, rm) for nm, b, l, rm in handmade(k)]
     out += fixture_triples(repo)
     for _ in range(max(6, n // 12)): out.append(upgrade_triple(r))
@@ -229,4 +246,4 @@ def gen_triples(r, n, repo, minors_mix=0.15):
         if minor < 5 and r.random() < minors_mix:
             b, l, rm = vary_minors(r, b, l, rm); name += '+minors%d%d%d' % (b['nbformat_minor'], l['nbformat_minor'], rm['nbformat_minor'])
         out.append((name, b, l, rm)); i += 1
-    return out[:max(n, 72)]
+    return out[:max(n, 80)]
